@@ -233,8 +233,9 @@ def _value_strategy(keyword):
             st.sampled_from(["", " ", "a", "Refused: out of resources", "x" * 64]),
         )
     if vr == "AT":
-        tag = st.one_of(st.sampled_from(_WELL_KNOWN_TAGS), st.integers(0, 0xFFFFFFFF))
-        return st.lists(tag, min_size=0, max_size=5)
+        edge = st.sampled_from([0x00000000, 0x00000001, 0x0000FFFF, 0x00010000, 0xFFFF0000, 0xFFFFFFFF])  # incl. the falsy tag (0000,0000)
+        tag = st.one_of(st.sampled_from(_WELL_KNOWN_TAGS), st.integers(0, 0xFFFFFFFF), edge)
+        return st.one_of(st.lists(tag, min_size=0, max_size=5), st.lists(tag, min_size=0, max_size=5), edge.map(lambda t: [t]))
     raise KeyError(keyword)
 
 
